@@ -455,6 +455,36 @@ func c08Big(n int, thorough bool) (*History, []merkOp) {
 	return h, ops
 }
 
+// c08OrphanRedelivered: longest chain G-A1..Aa; B2 arrives before its parent (orphan); B1 (sibling of A1, too light to
+// win alone) arrives; B2 is delivered again (with B1 it would outweigh the A chain - but it is a duplicate).
+func c08OrphanRedelivered(r *rand.Rand) []merkOp {
+	a := 2 + r.Intn(3)
+	var subs []Sub
+	k := 0
+	mk := func(id, prev int, bits uint32) Sub {
+		k++
+		return Sub{ID: id, Prev: prev, Bits: bits, Ver: 1, Merkle: 100 + id, TS: uint32(1600000000 + k), Nonce: uint32(k)}
+	}
+	prev := genesisID
+	for i := 0; i < a; i++ {
+		subs = append(subs, mk(2+i, prev, bitsW2))
+		prev = 2 + i
+	}
+	b1 := mk(20, genesisID, bitsW2)
+	b2 := mk(21, 20, bitsMain) // far heavier than the whole A chain
+	b := strconv.Itoa(1 + r.Intn(2))
+	var ops []merkOp
+	for i := range subs {
+		sb := subs[i]
+		ops = append(ops, merkOp{Sub: &sb})
+	}
+	ops = append(ops, qop("c", b), merkOp{Sub: &b2}, qop("c", b), merkOp{Sub: &b1}, qop("c", b))
+	b2again := b2
+	ops = append(ops, merkOp{Sub: &b2again}, qop("c", b), qop("c", b), qop("c", b), qop("w", b), qop("w", "2"),
+		qop("p", "2:r120"), qop("p", "2:r121"), qop("p", "2:r102"), qop("p", fmt.Sprintf("2:r%d", 101+a)))
+	return ops
+}
+
 func runC08(c *Ctx) error {
 	s, err := NewStack(StackOpts{Dir: c.TmpDir("c08")})
 	if err != nil {
@@ -575,6 +605,13 @@ func runC08(c *Ctx) error {
 	}
 	for n := 1; n <= c.Pick(8, 14); n++ {
 		if err := static(c08ForkEverywhere(rng, n), "fork-at-every-height", true, n); err != nil {
+			return err
+		}
+	}
+	// an orphan delivered again after its parent arrived on a competing branch that it would make the heavier one
+	// (a duplicate: nothing may change), between the pages of a walk
+	for i := 0; i < c.Pick(6, 40); i++ {
+		if err := r.run(map[string]string{"f": ""}, c08OrphanRedelivered(rng), "orphan-redelivered"); err != nil {
 			return err
 		}
 	}
